@@ -115,6 +115,13 @@ pub fn gen_cfg(rng: &mut Rng, kind: &'static str, profile: Profile) -> GenCfg {
             _ => WeigherKind::Const(2),
         },
     };
+    // With max_capacity = 0 and a value-dependent weigher, in-place updates make
+    // weighted_size > 0, and the sketch is then sized from `ws / 0.0 = inf`: an 8 GiB
+    // table. That is resource exhaustion, outside the model; keep weights fixed there.
+    let weigher = match (cap, weigher) {
+        (Some(0), WeigherKind::VMod(_)) | (Some(0), WeigherKind::Val) => WeigherKind::Const(0),
+        (_, w) => w,
+    };
     let durs = [0u64, SEC, 3 * SEC, 10 * SEC];
     let (ttl, tti) = match profile {
         Profile::Boundary => match rng.below(3) {
